@@ -561,10 +561,47 @@ func TestC09(t *testing.T) {
 		tab := d.Exp
 		what := ""
 		desc := func() string { return d.String() + what }
+		// now and then the columns are rebuilt or renamed first (ToUpper built-in on the text columns; an Aggregate whose
+		// columns get new names): the typed views are then the reference the other observers must agree with
+		rebuilt := 9
+		if hx.Rarely(t, 7, "rebuiltfirst") {
+			rebuilt = rapid.IntRange(0, 1).Draw(t, "rebuiltkind")
+		}
+		if rebuilt == 0 {
+			for _, c := range base.Cols {
+				if c.Kind == hx.KString || c.Kind == hx.KEnum {
+					d.QF = d.QF.Apply(qframe.Instruction{Fn: "ToUpper", DstCol: c.Name, SrcCol1: c.Name})
+				}
+			}
+			d.Route = append(d.Route, "ToUpper on every text column")
+		} else if rebuilt == 1 && len(base.Cols) >= 2 {
+			var aggs []qframe.Aggregation
+			for i, c := range base.Cols[1 : len(base.Cols)-1] {
+				aggs = append(aggs, qframe.Aggregation{Fn: "count", Column: c.Name, As: fmt.Sprintf("n of %s #%d", c.Name, i)})
+			}
+			aggs = append(aggs, qframe.Aggregation{Fn: "min", Column: "id"})
+			d.QF = d.QF.GroupBy(groupby.Columns(base.Cols[0].Name), groupby.Null(true)).Aggregate(aggs...).Sort(qframe.Order{Column: "id"})
+			d.Route = append(d.Route, "GroupBy(first column).Aggregate(counts under new names, min id)")
+		}
 		// (a) every observer describes the model table (C09 owns the observers)
 		obs, err := hx.Observe(d.QF)
 		if err != nil {
 			t.Fatalf("observe: %v\n%s", err, desc())
+		}
+		if rebuilt <= 1 && (rebuilt == 0 || len(base.Cols) >= 2) {
+			tab = obs
+			for i := range tab.Cols {
+				if j := d.Exp.Find(tab.Cols[i].Name); j >= 0 && tab.Cols[i].Kind == hx.KEnum && d.Exp.Cols[j].Enum != nil {
+					up := make([]string, len(d.Exp.Cols[j].Enum))
+					for k, v := range d.Exp.Cols[j].Enum {
+						up[k] = v
+						if rebuilt == 0 {
+							up[k] = strings.ToUpper(v)
+						}
+					}
+					tab.Cols[i].Enum = up
+				}
+			}
 		}
 		if diff := hx.Diff(tab, obs); diff != "" {
 			t.Fatalf("typed views (ItemAt) differ from the model of the derivation: %s\n%s", diff, desc())
@@ -579,6 +616,12 @@ func TestC09(t *testing.T) {
 			}
 		}
 
+		if rebuilt <= 1 && (rebuilt == 0 || len(base.Cols) >= 2) {
+			// (the Equals and same-operation parts need a rebuild from a model table; value lists with values that
+			// coincide after upper-casing have no unique rank model - the observers were the point here)
+			evC09.Case(false, desc, "rebuilt-columns:observers-only")
+			return
+		}
 		// a frame with rows but no columns (GroupBy().Aggregate() without keys and aggregations): Len, the JSON records
 		// and String/ToCSV (which must at least not fail) describe the same number of rows
 		if rapid.IntRange(0, 9).Draw(t, "columnless") == 0 {
